@@ -20,7 +20,8 @@ def obs(w):
 
 
 def run_text(case):
-    w = RW.TextWidget(case["text"])
+    # (a text may be handed over as bytes: TextWidget decodes it with the default encoding, utf-8)
+    w = RW.TextWidget(case["text"].encode("utf-8") if case.get("bytes") else case["text"])
     try:
         w.render(case["w"])
     except Exception as e:
@@ -311,6 +312,10 @@ def run_prompt(case):
             else: p.add_option(op[1], op[2])
         elif op[0] == "remove": p.remove_option(op[1])
         elif op[0] == "message": p.set_message(op[1])
+        elif op[0] == "std":
+            # the four standard options through their own methods, with the default or a given description
+            f = {"refresh": p.add_refresh_option, "continue": p.add_continue_option, "quit": p.add_quit_option, "help": p.add_help_option}[op[1]]
+            f() if op[2] is None else f(op[2])
     s = str(p)
     class _H: source = None
     req = InputHandlerRequest(case["w"], p, _H())
